@@ -3,6 +3,7 @@ CONSTANTS
   MAXU = 7
   W = 3
   Denoms = {1, 2, 7}
+  Mins = {0, 1, 2, 3, 4, 5, 6, 7}
   Sinces = {0, 2, 3, 4, 7}
 INVARIANTS FloorAtMin Direction Proportional Saturates MonotoneInUsage WindowInWord WindowShift TotalIsCappedSum TotalMonotone
 CHECK_DEADLOCK FALSE
